@@ -49,7 +49,7 @@ def shapes(tier, seed):
         if not q:
             out.append(('accept', carrier, 3, 0, None, 0, False, False, False))
             out.append(('accept', carrier, 1, 2, 'hdr', 1, True, True, False))
-        for what in ('path', 'query', 'header', 'body', 'key', 'sig', 'method', 'signedlist'):
+        for what in ('path', 'query', 'header', 'body', 'key', 'sig', 'method', 'signedlist', 'duppair', 'dupheader'):
             out.append(('mutate', carrier, what))
     return out
 
@@ -148,7 +148,13 @@ def run_shape(prog, shape, tier, seed, res):
             path = conc_bytes('/') + ([x] if what == 'path' else conc_bytes('p'))
             pairs = [(conc_bytes('k'), [x] if what == 'query' else conc_bytes('v'))]
             wire_q = conc_bytes('k=') + ([x] if what == 'query' else conc_bytes('v'))
+            if what == 'duppair' and x is b:
+                # B repeats an identical parameter: a different multiset, hence a different canonical query
+                pairs = pairs + pairs
+                wire_q = wire_q + conc_bytes('&') + wire_q
             headers = [('host', conc_bytes('h')), ('x-e', [x] if what == 'header' else conc_bytes('e'))]
+            if what == 'dupheader' and x is b:
+                headers = headers + [('x-e', conc_bytes('e'))]
             signed = ['host', 'x-e'] if not (what == 'signedlist' and x is b) else ['host']
             bodyb = [x] if what == 'body' else conc_bytes('B')
             method = 'GET' if not (what == 'method' and x is b) else 'PUT'
@@ -328,9 +334,54 @@ def run_shape(prog, shape, tier, seed, res):
 def replay_finding(rp, f):
     inp = f.inp
     if 'request_b' in inp:
-        # replay: request B with A's signature must be refused natively (real hashes: build A's signature concretely)
-        return False, {'note': 'mutation findings are reported only if the native replay accepts; concrete re-signing of A not derivable '
-                               'from the model of B alone'}
+        # replay: sign request A with real digests (zero signing key), present that signature with request B natively
+        what, carrier = inp['mutation'], inp['carrier']
+        a, b = chr(inp['a']), chr(inp['b'])
+
+        def parts(x, is_b):
+            path = '/' + (x if what == 'path' else 'p')
+            q = 'k=' + (x if what == 'query' else 'v')
+            if what == 'duppair' and is_b:
+                q = q + '&' + q
+            headers = [['host', b'h'.hex()], ['x-e', (x if what == 'header' else 'e').encode().hex()]]
+            if what == 'dupheader' and is_b:
+                headers.append(['x-e', b'e'.hex()])
+            signed = ['host', 'x-e'] if not (what == 'signedlist' and is_b) else ['host']
+            body = (x if what == 'body' else 'B').encode()
+            method = 'GET' if not (what == 'method' and is_b) else 'PUT'
+            return path, q, headers, signed, body, method
+
+        def mk(x, is_b):
+            path, q, headers, signed, body, method = parts(x, is_b)
+            if carrier == 'header':
+                headers = headers + [['x-amz-date', TS.encode().hex()]]
+                signed = sorted(signed + ['x-amz-date'])
+                uri = path + '?' + q
+            else:
+                signed = sorted(signed)
+                uri = path + '?' + q + '&X-Amz-Algorithm=AWS4-HMAC-SHA256&X-Amz-Credential=%s&X-Amz-Date=%s&X-Amz-SignedHeaders=%s' % (
+                    (AKID + '/' + SCOPE).replace('/', '%2F'), TS, '%3B'.join(signed))
+            return {'carrier': carrier, 'request': {'method': method, 'uri': uri, 'version': 'HTTP/1.1', 'headers': headers,
+                                                    'body_hex': body.hex(), 'body_kind': 'bytes'}, 'signed': signed, 's3': False}
+        if what in ('key', 'sig'):
+            return False, {'note': 'key / signature-digit mutations are replayed by the conformance run (wrong-signature cases)'}
+        ja, _, _ = sign_with_method(mk(a, False))
+        jb_unsigned = mk(b, True)
+        # transplant A's signature onto B
+        if carrier == 'header':
+            authz = [h for h in ja['headers'] if h[0] == 'authorization'][0]
+            hv = bytes.fromhex(authz[1]).decode()
+            sig = hv.rsplit('Signature=', 1)[1]
+            sb = ';'.join(jb_unsigned['signed'])
+            jb = dict(jb_unsigned['request'])
+            jb['headers'] = jb['headers'] + [['authorization', ('AWS4-HMAC-SHA256 Credential=%s/%s, SignedHeaders=%s, Signature=%s' % (AKID, SCOPE, sb, sig)).encode().hex()]]
+        else:
+            sig = ja['uri'].rsplit('X-Amz-Signature=', 1)[1]
+            jb = dict(jb_unsigned['request'])
+            jb['uri'] = jb['uri'] + '&X-Amz-Signature=' + sig
+        nat = native_validate(rp, jb, 'us-east-1', 'service', T0, provider={'result': {'signing_key_hex': '00' * 32}})
+        accepted = 'ok' in nat.get('result', {})
+        return accepted, {'request_b': jb['uri'][:200], 'native_accepts_signature_of_A': accepted}
     if 'request' not in inp:
         return False, None
     # an accepted request whose hash inputs deviate: natively, acceptance with a signature that is NOT the reference signature
@@ -359,6 +410,22 @@ def replay_finding(rp, f):
                            opts={'s3': inp['s3'], 'url_encode_form': inp['fold']})
     ok2 = 'ok' in nat2.get('result', {})
     return (not ok2), {'reference_signed_request_accepted_natively': ok2, 'native': nat2.get('result'), 'uri': j2['uri'][:200]}
+
+
+def sign_with_method(inp):
+    """c02.sign_concrete with the request's own method."""
+    j = json.loads(json.dumps(inp['request']))
+    uri = j['uri']
+    path, _, query = uri.partition('?')
+    headers = [(n, bytes.fromhex(v)) for n, v in j['headers']]
+    cp, cq = c02.py_canon(path, query)
+    sig, creq, sts = py_sign(bytes(32), j['method'], cp, cq, headers, inp['signed'], bytes.fromhex(j['body_hex']), TS, SCOPE, is_key=True)
+    if inp['carrier'] == 'header':
+        authz = 'AWS4-HMAC-SHA256 Credential=%s/%s, SignedHeaders=%s, Signature=%s' % (AKID, SCOPE, ';'.join(inp['signed']), sig)
+        j['headers'].append(['authorization', authz.encode().hex()])
+    else:
+        j['uri'] = uri + '&X-Amz-Signature=' + sig
+    return j, creq, sts
 
 
 def conformance(prog, rp, seed, tier):
@@ -397,7 +464,7 @@ def bounds(tier):
     return ('both carriers; accepting paths of requests with path bytes <= %d, raw query bytes <= %d, a signed header of 2 symbolic bytes, '
             'body <= 3 bytes (also as folded form body and as non-form body with folding on), S3 mode, session token; all 64 signature '
             'characters (any visible ASCII in the header carrier, any unreserved character in the query carrier) and 32 key bytes symbolic; mutation shapes: one covered component (path byte, query value, signed header value, body '
-            'byte, key byte, one signature digit, method, signed-header list) changed between signing and presentation' % (
+            'byte, key byte, one signature digit, method, signed-header list, a repeated identical query parameter, a repeated signed header) changed between signing and presentation' % (
                 2 if tier == 'quick' else 3, 2 if tier == 'quick' else 3))
 
 
